@@ -1529,9 +1529,17 @@ fn main() {
         "dynamic.write.after_archive_write",
         "dynamic.read.after_index_lookup",
     ];
+    // a hook site is a point of the pinned implementation: an implementation that, say, never stores a value that is
+    // expired on arrival has no "expired entry met by a get" to stop at. Individual sites are therefore reported, and
+    // the floor is per subject family: the schedulers must have had something to work with in each of them
+    for fam in ["memory.", "disk.", "dynamic."] {
+        if !sites.keys().any(|k| k.starts_with(fam)) {
+            ctx.inconclusive(&format!("no hook site of the {fam}* family was reached"));
+        }
+    }
     for m in must_reach {
         if !sites.contains_key(m) {
-            ctx.inconclusive(&format!("hook site {m} never reached"));
+            ctx.obs(&format!("hook_site_not_reached.{m}"), 1);
         }
     }
     // sub-workloads the verdict relies on must have run
